@@ -21,7 +21,8 @@ PROP = 'C03'
 LEVEL = 'fault_enumeration'
 REAL = ['pjrpc/server/dispatcher.py', 'pjrpc/common/exceptions.py', 'pjrpc/common/v20.py',
         'pjrpc/server/validators/base.py']
-STUB = ['the peer (generated / corrupted request texts)', 'event loop (SimLoop) for the async dispatcher']
+STUB = ['the peer (generated / corrupted request texts)', 'event loop (SimLoop) for the async dispatcher',
+        'every clock of the time module (virtual clock)']
 ASSUMPTIONS = ['texts containing an integer literal beyond the interpreter limit are valid JSON that Python cannot '
                'load: only C01 applies to them (open zone of the reference)',
                'data members of library-generated errors are not modelled (free text)']
